@@ -170,32 +170,39 @@ CLAIMED = {
              "identity is checked with `is` on the real graph.",
         design="§7 C17", technique="Lean 4 proof (fold invariants) + corruption-sweep correspondence check"),
     "C09": dict(
-        text="PARTIAL. Proved (Lean mirror of every to_xml / from_xml over abstract XML trees): comparison_roundtrip, "
-             "condition_roundtrip, linear_adjustment_roundtrip (slope and intercept, which the library's own == ignores), "
-             "term_roundtrip / polynomial_roundtrip and splinepoint_roundtrip / spline_roundtrip via the generic mapM_roundtrip "
-             "(spline points keep their stored order: sorting a strictly increasing list is the identity), under the stated hypotheses that CPython's "
-             "str/int/float printing and parsing round-trip; on top of those discrete_lookup_roundtrip, contextmatch_roundtrip / "
-             "context_calibrator_roundtrip, default_calibrator_roundtrip / context_list_roundtrip, and the whole-encoding theorems "
-             "int_encoding_roundtrip, float_encoding_roundtrip and binary_encoding_roundtrip (every attribute, the default and "
-             "all context calibrators, fixed / referenced / looked-up sizes with their adjustment) boolexpr_roundtrip with the mutual anded_roundtrip / ored_roundtrip (groups "
-             "nested to any depth within the loader's recursion budget), for match criteria in all three forms. string_encoding_roundtrip covers string encodings with a single-byte codec, no "
-             "termination character and a fixed or referenced size. The round trip of the remaining string encodings "
-             "(multi-byte codecs, termination characters, looked-up sizes), of parameter types, containers and "
-             "the equality of decoding is not a theorem: it is decided by the correspondence — definitions built both ways "
-             "(loaded from independently written XML with units, empty descriptions, time types, unconditional inheritance; "
-             "assembled from objects) go through write/load/write/load/write on model and library, every stage is compared, and "
-             "an independent by-name structural comparison (incl. length adjustments) is the oracle.",
-        design="§7 C09", technique="Lean 4 proof (element-level round trips, generic list lemma) + staged write/load correspondence"),
+        text="PARTIAL (regime). Proved (Lean mirror of every to_xml / from_xml over abstract XML trees, hypotheses: CPython's "
+             "str/int/float printing and parsing round-trip): definition_roundtrip - for every definition in the regime DefWF, "
+             "loadXtce (toXml d) = d: parameter types (class, unit, encoding with default and context calibrators, criteria in "
+             "all three forms nested to any depth, length specification with adjustment, integer enumerations), parameters "
+             "(type reference, descriptions), containers (entry order, base container, restriction criteria, abstract flag, "
+             "descriptions, inheritor lists), header date, space-system name, namespace. It is assembled from the element-level "
+             "theorems (comparison/condition/boolexpr, polynomial/spline, discrete lookup, context calibrator, int/float/binary/"
+             "string encoding round trips), data_encoding_roundtrip (the loader's descendant search finds exactly the written "
+             "encoding element: nothing the writers put below or beside it is a data-encoding element), ptype_roundtrip, "
+             "parameter_roundtrip, container_roundtrip_known, container_set_fold (containers in dependency order are read back "
+             "in order and the loader's recursive descent never happens), popFold_exact / populate_erased (back-population "
+             "computes exactly the `basedOn` lists). DefWF is the shape a load produces (keys are names and unique, containers "
+             "in dependency order, back-populated inheritors, tables in cache order) with every element inside the regime of "
+             "its element-level theorem; a concrete instance (exDef_wf) is proved to satisfy it and its round trip is also "
+             "computed by the kernel. Outside the regime (not theorems; decided by the correspondence): string encodings with "
+             "multi-byte codecs, termination characters or looked-up sizes, time types, float- or string-keyed enumerations, "
+             "definitions whose tables are not yet in load order (first cycle of an object-assembled definition), and the "
+             "equality of decoding - definitions built both ways go through write/load/write/load/write on model and "
+             "library, every stage is compared, and an independent by-name structural comparison (incl. length adjustments) "
+             "plus identical decoding of random packets is the oracle.",
+        design="§7 C09, §13", technique="Lean 4 proof (whole-definition round trip by structural induction and fold invariants) + staged write/load correspondence"),
     "C15": dict(
-        text="PARTIAL. In the model toXml is a total function of the definition (no clock, no iteration-order freedom): "
-             "write_is_function. Proved: document_in_namespace - every element of to_xml_tree() of any definition lies in the "
-             "definition's XTCE namespace (or in none when it has none), through criteria of any nesting depth, calibrators, "
-             "context calibrators, discrete lookups, all three kinds of encoding, parameter types (incl. time and enumerated "
-             "types), parameters and containers (mutual structural induction; mapM lemma). The fix-point G2 = G3 and byte-level determinism are decided by the correspondence: the library writes "
-             "every definition twice with a fixed header date (bytes compared), G2 and G3 are compared byte for byte and as "
-             "trees against the model's, every element of G1 is checked to lie in the namespace, and a structural snapshot of the "
-             "definition is compared before and after writing - also undated, and through write_xml with a str and a Path.",
-        design="§7 C15", technique="Lean 4 proof (structural induction over writers) + staged write/load correspondence"),
+        text="PARTIAL (regime). Proved: document_in_namespace - every element of to_xml_tree() of any definition lies in the "
+             "definition's XTCE namespace (or in none when it has none), at any nesting depth; write_is_function; and the "
+             "fix-point: fixpoint / every_further_cycle - for a definition in the regime C09.DefWF (the shape a load "
+             "produces), a write -> load cycle gives back the same definition, so after any number of cycles the written "
+             "document is the same tree (corollary of C09.definition_roundtrip). Byte-level determinism of lxml's "
+             "serialisation, definitions outside the regime (see C09) and 'writing does not alter the definition' are decided "
+             "by the correspondence: the library writes every definition twice with a fixed header date (bytes compared), G2 "
+             "and G3 are compared byte for byte and as trees against the model's, every element of G1 is checked to lie in "
+             "the namespace, and a structural snapshot of the definition is compared before and after writing - also undated, "
+             "and through write_xml with a str and a Path.",
+        design="§7 C15, §13", technique="Lean 4 proof (fix-point of write/load as a corollary of the C09 round trip; structural induction over writers) + staged write/load correspondence"),
 }
 
 NOT_YET = "check not built yet (work in progress; see DESIGN.md §11 build order)"
